@@ -561,54 +561,3 @@ Proof.
   exists evss, c'. repeat split; assumption.
 Qed.
 
-(* the error path: once the decoder of the property text has abandoned the stream (its events
-   end with the error x), the real codec -- which TcpConnection keeps calling for whatever still
-   arrives -- has shut the connection down exactly once, and from then on every delivery
-   re-reports that same error, delivers no message and consumes nothing *)
-Theorem error_abandons_stream :
-  forall (msg : Type) (parse : list byte -> option msg) (tag : list byte)
-         (chunks1 chunks2 : list (list byte)) (n0 : nat),
-    let r1 := codec_feed_all msg parse tag codec_init chunks1 in
-    d_abandoned (snd r1) = true ->
-    exists e pre evss1 c',
-      fst r1 = pre ++ [CErr e] /\
-      deliver_all msg parse tag (conn0 n0) (chunks1 ++ chunks2) =
-        Ok (evss1 ++ repeat [CErr e] (length chunks2), c') /\
-      length evss1 = length chunks1 /\
-      c_connected c' = false /\ c_shutdowns c' = 1 /\
-      readable (c_in c') = d_buf (snd r1) ++ concat chunks2.
-Proof.
-  intros msg parse tag chunks1 chunks2 n0. cbv zeta. intros Hab.
-  destruct (deliver_all_spec msg parse tag (chunks1 ++ chunks2) (conn0 n0) [] (new_buf_inv n0))
-    as (c' & E & HI & Hcon & Hsh).
-  rewrite live_all_app in E, HI, Hcon, Hsh. cbn [fst snd] in E, HI, Hcon, Hsh.
-  pose proof (live_all_vs_feed_all msg parse tag chunks1 [] codec_init (consistent_init msg parse tag)) as H.
-  pose proof (reads_in_bounds msg parse tag chunks1) as [HNF _].
-  destruct (live_all msg parse tag [] chunks1) as [es1 lf1].
-  destruct (codec_feed_all msg parse tag codec_init chunks1) as [evs1 d1] eqn:EF.
-  cbn [fst snd] in *. destruct H as (HC1 & Hlen1 & _ & _ & Hstop).
-  destruct (Hstop eq_refl Hab) as (x0 & Hin0 & _ & _).
-  destruct (feed_all_abandoned msg parse tag chunks1 codec_init evs1 d1 EF eq_refl eq_refl Hab)
-    as (x & pre & Hev & l0 & cs0 & Hb0 & Hx0).
-  (* after chunks1 the loop stops on x at the unconsumed bytes *)
-  assert (Hx : cstep msg parse tag tt (d_buf d1) = SStop [x]).
-  { rewrite Hb0. apply (cstep_stop_mono msg parse tag). exact Hx0. }
-  assert (Hxe : exists e, x = CErr e).
-  { destruct (cstep_stop_kind msg parse tag _ x Hx) as [->|He]; [|exact He].
-    exfalso. apply HNF. rewrite Hev. apply in_or_app. right. left. reflexivity. }
-  destruct Hxe as (e & ->).
-  pose proof (live_all_vs_feed_all msg parse tag chunks2 lf1 d1 HC1) as H2.
-  destruct (live_all msg parse tag lf1 chunks2) as [es2 lf2].
-  destruct (codec_feed_all msg parse tag d1 chunks2) as [evs2 d2] eqn:EF2.
-  cbn [fst snd] in *. destruct H2 as (HC2 & _ & Hdead & _ & _).
-  destruct (Hdead Hab) as (_ & _ & y & Hy & ->).
-  destruct HC1 as (Hb1 & _ & _). rewrite <- Hb1 in Hy. rewrite Hx in Hy. injection Hy as <-.
-  assert (Herr : any_err msg (es1 ++ repeat [CErr e] (length chunks2)) = true).
-  { apply err_in_any with (e := e). rewrite concat_app. apply in_or_app. left.
-    (* the error appears in the deliveries of chunks1: the stop event found there *)
-    destruct (cstep_stop_kind msg parse tag _ x0 ltac:(destruct (Hstop eq_refl Hab) as (z & _ & _ & l' & Hz); exact Hz))
-      as [->|(e0 & ->)].
-    - exfalso. shelve.
-    - shelve. }
-  shelve.
-Abort.
